@@ -118,6 +118,19 @@ theorem payloadOf_setAlloc (h : Heap) (id i : Nat) (a : Alloc) :
   · have : ¬ i = id := fun e => hi e.symm
     simp [hi, this]
 
+theorem keysOf_eq_none_of_ge {h : Heap} {id : Nat} (hge : h.allocs.length ≤ id) : keysOf h id = none := by
+  simp [keysOf, List.getElem?_eq_none hge]
+
+theorem keysOf_setAlloc (h : Heap) (id i : Nat) (a : Alloc) :
+    keysOf (setAlloc h id a) i = if i = id ∧ id < h.allocs.length then a.keys else keysOf h i := by
+  unfold keysOf setAlloc
+  simp only [List.getElem?_set]
+  by_cases hi : id = i
+  · subst hi
+    by_cases hl : id < h.allocs.length <;> simp [hl]
+  · have : ¬ i = id := fun e => hi e.symm
+    simp [hi, this]
+
 /-- handles to `id` held in payloads of all allocations -/
 def pocc (id : Nat) (h : Heap) : Nat := (h.allocs.map (fun a => occ id a.payload)).sum
 
